@@ -1125,6 +1125,28 @@ func (g *gen) extStmt(d int) (piece, bool) {
 		gate := fmt.Sprintf("gate%d", g.id())
 		a := fmt.Sprintf("a%d", g.id())
 		s := fmt.Sprintf("s%d", g.id())
+		if g.r.Chance(1, 2) {
+			// ... and so is the FUNCTION VALUE: a non-constant operand (slice element / call result) whose inputs the
+			// caller changes directly after the go statement; the goroutine must run the function selected before
+			g.feat["go-func-operand"]++
+			fs, k := fmt.Sprintf("fs%d", g.id()), fmt.Sprintf("k%d", g.id())
+			sig := "func(t [2]int, u struct{ X, Y int }, w int)"
+			operand, after := fmt.Sprintf("%s[%s]", fs, k), fmt.Sprintf("%s = 1", k)
+			switch g.r.Intn(3) {
+			case 1:
+				after = fmt.Sprintf("%s[0] = %s[1]", fs, fs)
+			case 2:
+				operand = fmt.Sprintf("func(p *int) %s { return %s[*p] }(&%s)", sig, fs, k)
+			}
+			gl := []string{fmt.Sprintf("%s, %s := make(chan int), make(chan int)", done, gate),
+				fmt.Sprintf("%s := [2]int{1, 2}", a), fmt.Sprintf("%s := struct{ X, Y int }{3, 4}", s),
+				fmt.Sprintf("%s := []%s{%s { <-%s; %s <- t[0]*100 + u.Y*10 + w }, %s { <-%s; %s <- 7000 + t[0] + w }}", fs, sig, sig, gate, done, sig, gate, done),
+				fmt.Sprintf("%s := 0", k),
+				fmt.Sprintf("go %s(%s, %s, %s[1])", operand, a, s, a),
+				after,
+				fmt.Sprintf("%s[0], %s[1], %s.Y = 9, 9, 9", a, a, s), fmt.Sprintf("_ = %s", k), fmt.Sprintf("%s <- 0", gate), fmt.Sprintf("emit(<-%s)", done)}
+			return piece{wrapBlock(gl), ""}, true
+		}
 		gl := []string{fmt.Sprintf("%s, %s := make(chan int), make(chan int)", done, gate),
 			fmt.Sprintf("%s := [2]int{1, 2}", a), fmt.Sprintf("%s := struct{ X, Y int }{3, 4}", s),
 			fmt.Sprintf("go func(t [2]int, u struct{ X, Y int }, w int) { <-%s; %s <- t[0]*100 + u.Y*10 + w }(%s, %s, %s[1])", gate, done, a, s, a),
